@@ -286,6 +286,8 @@ def run(ctx):
     from .sweep import r05_14 as _r05_14b, r03_7 as _r03_7b
     _r05_14b(ctx, 'R06.9')
     _r03_7b(ctx, 'R06.10')
+    from .sweep import r05_15 as _r05_15b
+    _r05_15b(ctx, 'R06.11')
     # the scanner runs on until terminate(): close() / join() neither flag nor wait for it (borrowed from C05)
     from .c05 import r05_7 as _r05_7
     _r05_7(ctx, 'R06.8')
